@@ -11,6 +11,9 @@ Part R  RenderIterator(cache=c) vs RenderIterator(cache=False) over two identica
         (an epoch ends when a set_* operation succeeds with a value different from the current one); when
         caching is enabled per the documentation (True or an integer >= frame count) a frame number that
         was already yielded in the current epoch must be yielded again without any `_render_` call.
+Part D  Renderable.draw(loops=-1 / 2 / 3, cache=True / n / 100) on the virtual stdout, the infinite animation
+        interrupted by Ctrl-C at every output point k (write / flush / sleep) of the first loops: the internal
+        iterator must not call `_render_` more often than there are distinct frames.
 Part I  ImageIterator(cached=c) vs ImageIterator(cached=False) on a 3-frame GIF for BlockImage / KittyImage
         / ITerm2Image: next, seek(p) (valid and invalid), image-size changes between a fixed size, another
         fixed size and a dynamic (FIT) size, terminal resizes (which change the dynamic size), close.
@@ -435,6 +438,63 @@ def i_explore(col, cfg):
     return stats
 
 
+# ====================================================================================== part D
+def draw_case(case):
+    """Renderable.draw() with its internal iterator: animate with the given loops / cache on a virtual stdout and
+    interrupt it (Ctrl-C) at the k-th write / flush / sleep.  Returns (renders, distinct frame count n)."""
+    lb = M.lib()
+    n = case["n"]
+    stdout = world.VStdout(None, True, None, record=False)
+    clock = world.VClock(stdout)
+    world.setup("other", 8, 6, stdout=stdout, clock=clock)
+    try:
+        r = lb["ns"].make(n, M.SIZE0, 100, cls=lb["DurR"])
+        if case["k"]:
+            stdout.plan = world.FaultPlan(k=case["k"], mode="instead", exc=KeyboardInterrupt)
+        r.draw(loops=case["loops"], cache=case["cache"])
+        return r.n_render
+    finally:
+        world.uninstall()
+
+
+def draw_judge(case):
+    renders = draw_case(case)
+    n, cache, loops = case["n"], case["cache"], case["loops"]
+    enabled = loops != 1 and (cache is True or (cache is not False and cache >= n))
+    if enabled and renders > n:
+        return (dict(part="D", clause="cached-frame-rerendered", via="draw", loops="infinite" if loops < 0 else "finite"),
+                f"draw(loops={loops}, cache={cache}) on {n} frames, interrupted at output point {case['k']}: {renders} "
+                f"_render_ calls for {n} distinct frames (settings never change during a draw) [case={case}]")
+    return None
+
+
+def draw_cases(tier):
+    out = []
+    for n in (2, 3):
+        for cache in (True, n, 100):
+            for k in range(1, 61 if tier == "quick" else 121):      # ~5 output points per frame: 4-8 loops
+                out.append(dict(n=n, loops=-1, cache=cache, k=k))
+            for loops in (2, 3):
+                out.append(dict(n=n, loops=loops, cache=cache, k=0))
+    return out
+
+
+def draw_runs(ctx):
+    for case in draw_cases(ctx.tier):
+        ctx.count()
+        try:
+            viol = draw_judge(case)
+        except world.HarnessError:
+            raise
+        except Exception as e:
+            viol = (dict(part="D", clause="exception", exc=type(e).__name__), f"{type(e).__name__}: {e} [case={case}]")
+        if viol is not None:
+            ctx.violation(viol[0], viol[1], dict(part="D", case=case))
+        else:
+            ctx.add_distinct(h64(repr(("D", sorted(case.items())))))
+    ctx.inc("draw_runs", len(draw_cases(ctx.tier)))
+
+
 # ====================================================================================== driver
 def _shard(items):
     col = _CTX.new_collector()
@@ -464,6 +524,8 @@ def run(ctx):
     world.load()
     M.lib()
     gif_path()                            # created before forking, shared by the workers
+    M.CANON_IDENTITY = ctx.tier == "quick"   # (inherited by the forked workers)
+    draw_runs(ctx)
     items = [("I", c) for c in i_configs(ctx.tier)] + [("R", c) for c in r_configs(ctx.tier)]
     items = explore.rotate(items)
     big = {"small": 5, "full": 2, "wide": 3}
@@ -495,6 +557,12 @@ def run(ctx):
 
 
 def replay(ctx, case):
+    if case["part"] == "D":
+        ctx.count()
+        viol = draw_judge(case["case"])
+        if viol is not None:
+            ctx.violation(viol[0], viol[1], case)
+        return
     part, cfg = case["part"], case["cfg"]
     hops = [tuple(o) for o in case["history"]]
     op = tuple(case["op"])
